@@ -43,7 +43,11 @@ type gcase struct {
 	Windows  int           `json:"windows"`   // consecutive windows evaluated
 	Entry    string        `json:"entry"`     // "calculator" (NewCalculator.For) or "rates" (CalculateGaussianRate.Rate)
 	Zone     int           `json:"zone_s"`    // zone offset of the timestamps handed in (0 = UTC)
+	Mono     bool          `json:"monotonic"` // the timestamps carry a monotonic clock reading, like those of time.Now() and of tickers
 }
+
+// monoNow is a reading of the process clock (wall + monotonic) taken once.
+var monoNow = time.Now()
 
 func (c gcase) R() time.Duration { return c.F * time.Duration(c.N) }
 
@@ -56,7 +60,7 @@ func (c gcase) L() int {
 
 func (c gcase) key() string {
 	return fmt.Sprintf("%d/%d/%d/%d/%v/%v/%d/%d/%d/%s/%d", c.F, c.N, c.Peak, c.Sigma, c.Volume, c.Weights,
-		c.BaseUnix, c.Start, c.Windows, c.Entry, c.Zone)
+		c.BaseUnix, c.Start, c.Windows, c.Entry, c.Zone) + fmt.Sprint(c.Mono)
 }
 
 func (c gcase) String() string {
@@ -252,6 +256,19 @@ func (c gcase) rateFn() (func(time.Time) int, error) {
 		}
 		return rates.Rate, nil
 	}
+	if c.Entry == "builder" {
+		// the CLI's builder: flag set -> gaussian.Rate().New
+		flags := map[string]string{"volume": strconv.FormatFloat(c.Volume, 'g', -1, 64), "repeat": c.R().String(), "iteration-frequency": c.F.String(),
+			"peak": c.Peak.String(), "standard-deviation": c.Sigma.String(), "distribution": "none"}
+		if len(c.Weights) > 0 {
+			flags["weights"] = weightsArg(c.Weights)
+		}
+		trig, err := vlib.BuildTrigger(&vlib.RunSpec{Mode: "gaussian", Flags: flags})
+		if err != nil {
+			return nil, err
+		}
+		return trig.DryRun, nil
+	}
 	calc, err := gaussian.NewCalculator(c.Peak, c.Sigma, c.F, c.Weights, c.Volume, c.R())
 	if err != nil {
 		return nil, err
@@ -291,7 +308,11 @@ func observe(c gcase) (obs observation, infra string, panicked any) {
 		}
 		var sum int64
 		for k := 0; k < c.N; k++ {
-			v := fn(ws.Add(time.Duration(k) * c.F))
+			at := ws.Add(time.Duration(k) * c.F)
+			if c.Mono {
+				at = monoNow.Add(at.Sub(monoNow)) // same instant, with a monotonic reading attached
+			}
+			v := fn(at)
 			vals[k] = v
 			sum += int64(v)
 			if v < obs.minVal {
@@ -680,7 +701,8 @@ func genCase(t *rapid.T) gcase {
 		}
 	}
 	c.BaseUnix = uniformInt64(t, 0, 4_000_000_000, "base")
-	c.Entry = []string{"calculator", "rates"}[choose(t, "entry", 1, 1)]
+	c.Entry = []string{"calculator", "rates", "builder"}[choose(t, "entry", 2, 2, 1)]
+	c.Mono = choose(t, "monotonic", 3, 1) == 1
 	if choose(t, "zoned", 4, 1) == 1 {
 		c.Zone = []int{3600, -5 * 3600, 19800, 45 * 60 * 13}[uniformInt64(t, 0, 3, "zone")]
 	}
@@ -809,7 +831,8 @@ func genN1(t *rapid.T) gcase {
 	}
 	c.Windows = len(c.Weights) + 2
 	c.BaseUnix = uniformInt64(t, 0, 4_000_000_000, "base")
-	c.Entry = []string{"calculator", "rates"}[choose(t, "entry", 1, 1)]
+	c.Entry = []string{"calculator", "rates", "builder"}[choose(t, "entry", 2, 2, 1)]
+	c.Mono = choose(t, "monotonic", 3, 1) == 1
 	return c
 }
 
